@@ -1011,7 +1011,12 @@ class ManifestRecursiveLoader:
                             raise ManifestIncompatibleEntry(
                                 out[fullpath][1], e, diff)
                         # otherwise, make sure we have all checksums
+                        old_checksums = dict(out[fullpath][1].checksums)
                         out[fullpath][1].checksums.update(e.checksums)
+                        if out[fullpath][1].checksums != old_checksums:
+                            # the preserved entry has been altered,
+                            # so its Manifest needs saving as well
+                            self.updated_manifests.add(out[fullpath][0])
                         # and drop the duplicate
                         entries_to_remove.append(e)
                     else:
